@@ -754,7 +754,9 @@ impl super::MainState {
                     for kick_user in &kick_users {
                         let ku = kick_user.to_string();
                         if let Some(chum) = chanobj.users.get(&ku) {
-                            if !chum.is_protected()
+                            if kicked.contains(&kick_user) {
+                                // repeated nick - it will be kicked once
+                            } else if !chum.is_protected()
                                 && (!chum.is_half_operator() || !is_only_half_oper)
                             {
                                 kicked.push(kick_user);
@@ -804,15 +806,19 @@ impl super::MainState {
             for ku in &kicked {
                 state.remove_user_from_channel(channel, ku);
             }
-            let chanobj = state.channels.get(channel).unwrap();
+            // channel can be not found if it doesn't exist or if last user
+            // kicked itself and channel has been removed.
+            let chanobj_opt = state.channels.get(channel);
             for ku in &kicked {
                 let kick_msg = format!("KICK {} {} :{}", channel, ku, comment.unwrap_or("Kicked"));
-                for nick in chanobj.users.keys() {
-                    state
-                        .users
-                        .get(nick)
-                        .unwrap()
-                        .send_msg_display(&conn_state.user_state.source, kick_msg.clone())?;
+                if let Some(chanobj) = chanobj_opt {
+                    for nick in chanobj.users.keys() {
+                        state
+                            .users
+                            .get(nick)
+                            .unwrap()
+                            .send_msg_display(&conn_state.user_state.source, kick_msg.clone())?;
+                    }
                 }
                 // and send to kicked user
                 state
